@@ -26,7 +26,7 @@ RULE = ("case = DCOP description + agents + load mode; non-trivial = >=2 variabl
         ">=1 agent with a specific route or hosting cost; distinct by sha1(case)")
 ASSUMPTIONS = ["temporary files are written in the worker's private temp directory"]
 BUDGET = {"quick": {"workers": 8, "examples": 500, "seconds": 40},
-          "thorough": {"workers": 16, "examples": 3000, "seconds": 480}}
+          "thorough": {"workers": 16, "examples": 9000, "seconds": 480}}
 
 MODES = ["string", "file_str", "file_list1", "file_split"]
 # how the file names are handed over in the file modes ("str or iterable of str")
